@@ -138,7 +138,7 @@ func (s *Store) MarkSeen(mailbox, id string) error {
 	s.withMailbox(mailbox, true, func(mb *mbox) {
 		found = mb.messages[id]
 		if found != nil {
-			found.seen = true
+			found.seen.Store(true)
 		}
 	})
 	if found == nil {
